@@ -418,10 +418,25 @@ pub fn run_history(ctx: &mut Ctx, w: &World, w2: &World, cfg: &HistCfg) -> bool 
             }
         }
     }
-    if cfg.close_tag_draws && ctx.prng.gen_range(0..4) == 0 { ctx.forced_next = vec![CLOSE_SCALAR]; ctx.count("degenerate:close-tag-drawn-at-establish"); }
+    let mut degenerate = false;
+    if cfg.close_tag_draws {
+        match ctx.prng.gen_range(0..6) {
+            0 => { ctx.forced_next = vec![CLOSE_SCALAR]; ctx.count("degenerate:close-tag-drawn-at-establish"); }
+            1 | 2 => {
+                // one scalar draw of Requested::new is zero (a zero blinding factor is a legal, storable value)
+                let k = ctx.prng.gen_range(0..16);
+                let mut f: Vec<Scalar> = (0..k).map(|_| nonzero(&mut ctx.prng)).collect();
+                f.push(Scalar::zero());
+                ctx.forced_next = f;
+                degenerate = true;
+                ctx.count("degenerate:zero-draw-at-establish");
+            }
+            _ => {}
+        }
+    }
     let run = match establish_customer(ctx, w, &a) { Some(r) => r, None => return false };
     let mut h = Hist { w, w2, a: a.clone(), stage: None, ledger: (a.cb as i128, a.mb as i128), disclosed: vec![], faults_max: cfg.faults_max, restore: cfg.restore, recorded, failed: false };
-    let out = match initialize_check(ctx, w, &a, &run.d, Some(true), "honest") { Some(o) => o, None => return false };
+    let out = match initialize_check(ctx, w, &a, &run.d, if degenerate { None } else { Some(true) }, if degenerate { "degenerate-draw" } else { "honest" }) { Some(o) => o, None => return false };
     let (_closing, vbs) = match out.accepted { Some(x) => x, None => return false };
     let u = match out.u { Some(u) => u, None => return false };
     let (st_com, cl_com) = (run.d.st.c, run.d.cl.c);
@@ -487,7 +502,22 @@ pub fn run_history(ctx: &mut Ctx, w: &World, w2: &World, cfg: &HistCfg) -> bool 
                 ctx.violation("a Ready customer state cannot be restored from its own encoding", json!({"class": "restore-fails", "stage": "ready", "bytes": hex::encode(&before_bytes)}));
             }
         }
-        if cfg.close_tag_draws && ctx.prng.gen_range(0..3) == 0 { ctx.forced_next = vec![CLOSE_SCALAR]; ctx.count("degenerate:close-tag-drawn-at-start"); }
+        let mut degenerate = false;
+        if cfg.close_tag_draws {
+            match ctx.prng.gen_range(0..6) {
+                0 | 1 => { ctx.forced_next = vec![CLOSE_SCALAR]; ctx.count("degenerate:close-tag-drawn-at-start"); }
+                2 | 3 => {
+                    // one scalar draw of Ready::start is zero (position uniform over the ~95 draws)
+                    let k = ctx.prng.gen_range(0..100);
+                    let mut f: Vec<Scalar> = (0..k).map(|_| nonzero(&mut ctx.prng)).collect();
+                    f.push(Scalar::zero());
+                    ctx.forced_next = f;
+                    degenerate = true;
+                    ctx.count("degenerate:zero-draw-at-start");
+                }
+                _ => {}
+            }
+        }
         match pay_start(ctx, w, &a, ready, amount) {
             StartOutcome::Refused(r, e) => {
                 let got = match e { zkabacus_crypto::Error::InsufficientFunds => "insufficient-funds", zkabacus_crypto::Error::AmountTooLarge(_) => "amount-too-large" };
@@ -526,7 +556,7 @@ pub fn run_history(ctx: &mut Ctx, w: &World, w2: &World, cfg: &HistCfg) -> bool 
                 h.stage = Some(st);
                 // while only started the customer closes on the old balances
                 h.close_probe(ctx, h.ledger);
-                let out = match allow_check(ctx, w, &run.nonce_s, amount, &a.ctx_bytes, &run.d, Some(true), "honest") { Some(o) => o, None => return false };
+                let out = match allow_check(ctx, w, &run.nonce_s, amount, &a.ctx_bytes, &run.d, if degenerate { None } else { Some(true) }, if degenerate { "degenerate-draw" } else { "honest" }) { Some(o) => o, None => return false };
                 let (unrevoked, _closing) = match out.accepted { Some(x) => x, None => return false };
                 let u = match out.u { Some(u) => u, None => return false };
                 let dd = blind_sign_d(w, &u, &run.d.cl.c);
